@@ -673,6 +673,10 @@ static void check_websocket_protocol(struct websocket *s, const char *at, size_t
 			while (length > 0) {
 				if (*end == ',') {
 					ptrdiff_t len = end - start;
+					/* "jet , chat": whitespace in front of the comma does not belong to the token */
+					while ((len > 0) && isspace(start[len - 1])) {
+						len--;
+					}
 					fill_requested_sub_protocol(s, start, len);
 					start = end;
 					break;
@@ -894,6 +898,11 @@ int websocket_upgrade_on_header_value(http_parser *p, const char *at, size_t len
 	struct websocket *s = connection->parser.data;
 	if (unlikely(s == NULL)) {
 		return -1;
+	}
+
+	/* optional whitespace behind a field value is not part of the value (RFC 7230, 3.2.4) */
+	while ((length > 0) && ((at[length - 1] == ' ') || (at[length - 1] == '\t'))) {
+		length--;
 	}
 
 	switch (s->current_header_field) {
